@@ -3,7 +3,7 @@ from vmon import env, hooks, scopes, tablegen
 from vmon.hooks import MON
 from vmon.hostile import hostile_smiles
 from vmon.molgen import random_tree_mol, spell
-from vmon.aromgen import standard_system, union, link_systems
+from vmon.aromgen import standard_system, union, link_systems, benzenoid_system
 from vmon.totality import Totality, AbortWorkload
 from vmon.props.c08 import atheris_campaign
 
@@ -59,6 +59,10 @@ def run(ctx):
                                  standard_system(rng, nrings=rng.choice([3, 4, 6]), sizes=rng.choice([(5, 6, 6, 7), (5, 6, 6), (5, 7), (3, 4, 5, 6, 7)]), chords=0))
                 m, kind_of, ae = union(parts) if rng.random() < 0.5 else link_systems(rng, parts)
                 cls, x = "aromatic-large", spell(m, rng)[0]
+            elif i % 12 == 11 and i % 600 == 35:
+                # scale: the same polycyclic fragment hundreds of times in one input (hundreds of matching searches in one call)
+                m, kind_of, ae = benzenoid_system(rng, rng.choice([4, 5, 6, 8]))
+                cls, x = "aromatic-replicated", ".".join([spell(m, rng, variants=False)[0]] * rng.choice([260, 300, 420]))
             elif i % 12 == 11:
                 m, kind_of, ae = standard_system(rng, sizes=(3, 4, 5, 6, 7))
                 cls, x = "aromatic", spell(m, rng)[0]
